@@ -139,6 +139,10 @@ def blocking_clause(inp, model):
         elif isinstance(v, SymBool):
             diffs.append(v.z != model.eval(v.z, model_completion=True))
         elif isinstance(v, SymFloat):
+            if v.iz is None and v._r is None and v.quot is not None:
+                for t in v.quot:
+                    diffs.append(t != model.eval(t, model_completion=True))
+                continue
             t = v.iz if v.iz is not None else v.r
             diffs.append(t != model.eval(t, model_completion=True))
         elif isinstance(v, SymStr):
